@@ -21,8 +21,13 @@ func init() {
 	generators["c08edges"] = genC08edges
 	generators["stopbulk"] = genStopThenBulk
 	generators["c09"] = genC09
+	generators["upgradeids"] = genUpgradeIds
+	generators["pipe300"] = genPipe300
+	generators["c07stale"] = genC07stale
+	generators["upgradestale"] = genUpgradeStale
 	generators["c10"] = genC10
 	generators["c10busy"] = genC10busy
+	generators["c10panic"] = genC10panic
 	generators["c11"] = genC11
 	generators["c12"] = genC12
 	generators["c12accept"] = genC12accept
@@ -340,9 +345,9 @@ func genC08edges(g *Gen) {
 	}
 }
 
-// C09: connect / request / close / reconnect histories
-func genC09(g *Gen) {
-	r := g.rng
+// StartTLS upgrades in the middle of a connection's life: neither the connection id (C09) nor
+// the numbering of its requests (C06) starts again
+func genUpgradeIds(g *Gen) {
 	// the id survives a StartTLS upgrade: upgrades requested as the 1st, 2nd and 3rd request of
 	// connections 1, 2 and 3 (request number and connection id differ), requests before and after
 	up := newScen("fixed")
@@ -364,6 +369,84 @@ func genC09(g *Gen) {
 	up.op("close 1")
 	up.op("stop")
 	up.emit(g)
+}
+
+// clients that go away while their handlers are still running, new clients right behind them:
+// what the late handlers write must not reach anybody else (nothing of a connection - buffers,
+// writers - is handed to the next one while its handlers can still use it)
+func genC07stale(g *Gen) {
+	for _, n := range []int{2, 8} {
+		s := newScen("fixed")
+		s.op("run 1 1")
+		for c := 0; c < n; c++ {
+			s.op("connect")
+			s.send(c, s.req("normal", "b5", "w", "w"))
+		}
+		for c := 0; c < n; c++ {
+			s.op("close " + strconv.Itoa(c))
+		}
+		for c := n; c < 2*n; c++ {
+			s.op("connect")
+			s.send(c, s.req("normal", "w"))
+		}
+		s.op("release 5")
+		for c := n; c < 2*n; c++ {
+			s.send(c, s.req("normal", "w"))
+		}
+		s.op("stop")
+		s.emit(g)
+	}
+}
+
+// a connection upgrades (StartTLS) while an earlier handler of it is still running; other clients
+// connect and are served; then the old handler writes.  Nothing the upgrade lets go of (the old
+// reader and writer) may be in anybody else's hands while that handler can still use it
+func genUpgradeStale(g *Gen) {
+	for _, n := range []int{2, 8} {
+		s := newScen("fixed")
+		s.op("run 1 1")
+		s.op("connect")
+		s.send(0, s.req("normal", "b5", "w"))
+		s.send(0, s.req("starttls", "w", "hs"))
+		s.send(0, "hello")
+		for c := 1; c <= n; c++ {
+			s.op("connect")
+			s.send(c, s.req("normal", "w"))
+		}
+		s.op("release 5")
+		for c := 1; c <= n; c++ {
+			s.send(c, s.req("normal", "w"))
+		}
+		s.op("stop")
+		s.emit(g)
+	}
+}
+
+// a pipeline of 300 requests whose handlers all wait: every one of them is handed to a handler
+// (no limit on requests in flight that gldap answers itself), the connection ends like any other
+func genPipe300(g *Gen) {
+	for _, ending := range []string{"close", "stop"} {
+		s := newScen("fixed")
+		s.op("run 1 1")
+		s.op("connect")
+		var items []string
+		for i := 0; i < 300; i++ {
+			items = append(items, s.req("normal", "b3", "w"))
+		}
+		s.send(0, items...)
+		s.op("release 3")
+		s.send(0, s.req("normal", "w"))
+		if ending == "close" {
+			s.op("close 0")
+		}
+		s.op("stop")
+		s.emit(g)
+	}
+}
+
+// C09: connect / request / close / reconnect histories
+func genC09(g *Gen) {
+	r := g.rng
 	for i := 0; i < g.n; i++ {
 		s := newScen("fixed")
 		s.op("run 1 1")
@@ -429,6 +512,26 @@ func genC10(g *Gen) {
 				}
 			}
 		}
+	}
+}
+
+// C10 (continued): the unbind route's handler panics (recovery on, the default): the Unbind still
+// ends the connection, nothing behind it is served
+func genC10panic(g *Gen) {
+	for _, before := range []int{0, 2} {
+		s := newScen("fixed:unbind=1")
+		s.op("run 1 1")
+		s.op("connect")
+		s.op("connect")
+		var items []string
+		for i := 0; i < before; i++ {
+			items = append(items, s.req("normal", "w"))
+		}
+		items = append(items, s.req("unbind", "p"), s.req("normal", "w"), s.req("normal", "w"))
+		s.send(0, items...)
+		s.send(1, s.req("normal", "w"))
+		s.op("stop")
+		s.emit(g)
 	}
 }
 
@@ -655,6 +758,17 @@ func genC12(g *Gen) {
 		s.op("stop")
 		s.op("holdonclose 0")
 		s.emit(g)
+		// a handler still running when the unbind route's handler panics (recovered): the teardown
+		// still waits for it, and so do Stop and Run
+		s = newScen("fixed:unbind=1")
+		s.op("run 1 1")
+		for c := 0; c < nconn; c++ {
+			s.op("connect")
+			s.send(c, s.req("normal", "b4", "w"), s.req("unbind", "p"))
+		}
+		s.op("stop")
+		s.op("release 4")
+		s.emit(g)
 		// teardown in progress when Stop arrives
 		s = newScen("fixed")
 		s.op("run 1 1")
@@ -723,6 +837,23 @@ func genC13(g *Gen) {
 		}
 		sf.op("stop")
 		sf.emit(g)
+	}
+	// a StartTLS request inside the tunnel (unusual, and served by gldap like any other request
+	// in the tunnel): its handshake runs on the connection's current stream and sees the client's
+	// first handshake byte; requests after it are served in the inner session
+	{
+		sn := newScen("fixed")
+		sn.op("run 1 1")
+		sn.op("connect")
+		sn.send(0, sn.req("starttls", "w", "hs"))
+		sn.send(0, "hello")
+		sn.send(0, sn.req("normal", "w"))
+		sn.send(0, sn.req("starttls", "w", "hs"))
+		sn.send(0, "hello")
+		sn.send(0, sn.req("normal", "w"), sn.req("normal", "w"))
+		sn.send(0, sn.req("unbind"))
+		sn.op("stop")
+		sn.emit(g)
 	}
 	// Stop while upgraded sessions are open: whatever the server still sends is inside TLS records
 	s0 := newScen("fixed")
